@@ -37,11 +37,17 @@ TRUSTED = [
     "evaluation over one 400-year era",
     "the regular expressions of _string_parsers are transcribed as hand-written scanners (their text is pinned by the "
     "extractor); ASCII character classes only",
-    "numbers inside spellings are exact decimals in the model; float rounding of parse_duration is outside "
-    "(generators keep totals at whole microseconds, below 3 years)",
+    "numbers inside spellings are exact decimals in the model the theorems are about (generators of the function-level "
+    "streams keep totals at whole microseconds, below 3 years); the arithmetic Python really performs – float(value) * unit "
+    "summed in binary64, then timedelta(seconds=float) – is the hand-written model Rotation.parseDurationF over "
+    "Py/Float64.lean (F64.tdSeconds mirrors _datetimemodule.c), compared bit for bit with parse_duration on spellings "
+    "that need rounding (sub-microsecond parts, exact half microseconds, long fractions, exponents, overflow)",
 ]
 ASSUMPTIONS = ["fixed-offset zones (datetime.timezone) for records and aware times", "timestamps are non-decreasing",
-               "get_ctime/set_ctime are patched to a supplied creation time in the function-level stream"]
+               "get_ctime/set_ctime are patched to a supplied creation time in the function-level stream",
+               "the Windows / macOS / fallback branches of load_ctime_functions are run under stand-ins of `os` "
+               "(feature tests and os.stat results emulated; win32_setctime is a stub)",
+               "where the creation time cannot be persisted the clock is emulated on the file system (os.utime after each record)"]
 
 EPOCH = pydt.datetime(1970, 1, 1, tzinfo=pydt.timezone.utc)
 EPOCH_N = pydt.datetime(1970, 1, 1)
@@ -877,6 +883,40 @@ def run(ctx):
                           {"stream": "dur", "text": s, "expected": "ok %d" % tot})
         plines.append("dur " + enc(s))
         pexp.append((e, "parse_duration(%r)" % s))
+        # the same spelling through the binary64 reading (float(value) * unit summed in doubles, timedelta(seconds=float))
+        plines.append("durf " + enc(s))
+        pexp.append((e, "parse_duration(%r) [binary64 model]" % s))
+    # spellings whose value needs rounding: sub-microsecond parts, exact half microseconds, long fractions, exponents –
+    # no oracle of their own (either neighbour is a defensible reading); the binary64 model must reproduce Python exactly
+    fr = rng.fork("durf")
+    funits = ["y", "month", "w", "d", "h", "min", "s", "ms", "us", "seconds", "milliseconds", "microseconds", "hours"]
+    for i in range(ctx.n(1200, 40000)):
+        parts = []
+        for _ in range(fr.choice([1, 1, 2, 3])):
+            k = fr.below(20)
+            if k < 5:
+                v = str(fr.range(0, 5000))
+            elif k < 11:
+                v = "%d.%s" % (fr.range(0, 5000), "".join(fr.choice("0123456789") for _ in range(fr.range(1, 12))))
+            elif k < 14:
+                v = "%d.%de%s%d" % (fr.range(0, 99), fr.range(0, 10**6), fr.choice(["", "-", "+"]), fr.range(0, 12))
+            elif k < 18:
+                v = "0.%s5" % ("0" * fr.range(0, 7) + str(fr.range(0, 999)))
+            else:
+                v = fr.choice(["-", "+"]) + "%d.%d" % (fr.range(0, 100), fr.range(0, 99))
+            parts.append(v + fr.choice(["", " "]) + fr.choice(funits))
+        s = " ".join(parts) if fr.chance(85) else fr.choice(
+            ["1.5 us", "2.5 us", "0.5 us", "1.0000005 s", "2.0000005 s", "3.0000015 s", "0.0000005 s", "0.1 s 0.2 s",
+             "1e16 s", "1e400 s", "1e400 s -1e400 s", "-1.5 us", "0.3 ms", "0.57 min", "999999999 d", "1000000000 d"])
+        try:
+            r = sp.parse_duration(s)
+            e = "none" if r is None else "ok %d" % (r // US)
+        except Exception as ex:  # noqa
+            e = "err " + canon_err(ex)
+        ctx.case(("durf", s))
+        ctx.stat("parse_duration_binary64")
+        plines.append("durf " + enc(s))
+        pexp.append((e, "parse_duration(%r) [binary64 model]" % s))
     for i in range(ctx.n(1500, 60000)):
         t = gen_creation(rng) + rng.choice([0, 0, 1, -1])
         which = rng.below(7)
@@ -971,8 +1011,13 @@ def run(ctx):
     # ---- stream 7: get_ctime / set_ctime on real files with a history (no patching)
     run_ctime_stream(ctx, drv, rng)
 
-    # ---- stream 8: the catch-up loop as written: step-function invocations per call
-    run_steps_stream(ctx, drv, rng.fork("steps"))
+    # ---- stream 9: platform dispatch of the creation-time functions; histories without a persisted creation tag
+    # ---- stream 8: the catch-up loop as written: step-function invocations per call    (one driver process for both)
+    l9, judge9 = (lambda r: r if r else ([], lambda out: None))(run_platform_stream(ctx, drv, rng.fork("platform"), boost))
+    l8, judge8 = run_steps_stream(ctx, drv, rng.fork("steps"))
+    out89 = run_model(ctx, drv, l9 + l8)
+    judge9(out89[:len(l9)])
+    judge8(out89[len(l9):])
 
     # ---- stream 6: sink level – a real FileSink, frozen clock, observable = messages per file
     run_sink_stream(ctx, drv, rng, boost)
@@ -1036,6 +1081,22 @@ def run_ctime_stream(ctx, drv, rng):
                                      "user.loguru_crtime = %s" % naive_of(aging["xattr_us"]) if planted else "no user.loguru_crtime",
                                      naive_of(got), naive_of(want)), dict(rep, observed=got))
                     break
+            gotf = want
+            if not planted:
+                # the pair installed where there are no extended attributes at all: modification time, nothing persisted
+                try:
+                    with fake_platform(False, False, False) as (gfb, sfb):
+                        pass
+                    sfb(path, (m_us + 5) / 1e6)
+                    gotf = us_of(pydt.datetime.fromtimestamp(gfb(path), tz=pydt.timezone.utc))
+                except Exception as e:  # noqa
+                    ctx.broke("platform emulation", "fallback pair: %s: %s" % (type(e).__name__, e))
+                if gotf != want:
+                    ctx.violation("get_ctime_fallback of an existing file (mtime %s, atime %s, inode change %s) is %s, its "
+                                  "creation time is taken to be its modification time %s"
+                                  % (naive_of(st.st_mtime_ns // 1000), naive_of(st.st_atime_ns // 1000),
+                                     naive_of(st.st_ctime_ns // 1000), naive_of(gotf), naive_of(want)),
+                                  dict(rep, observed=gotf, fallback=True))
             # set_ctime then get_ctime
             ts2 = (m_us + 1) / 1e6
             cf.set_ctime(path, ts2)
@@ -1136,7 +1197,7 @@ def run_steps_stream(ctx, drv, rng):
     themselves demand (oracle) and against the model's `timeRunSteps` (driver op `steps`).  The count is not part of
     the property; a difference is a broken tie of `catch_up_loop_as_written` / `catch_up_interval_cost`, not a violation."""
     lines, exp = [], []
-    for i in range(ctx.n(1200, 20000)):
+    for i in range(ctx.n(700, 20000)):
         if HANGS["n"] >= 8:
             break
         meaning = gen_meaning(rng)
@@ -1159,12 +1220,231 @@ def run_steps_stream(ctx, drv, rng):
                       "demand %r" % (obj if isinstance(obj, str) else repr(obj), eff, off, stamps, got[1], want))
         lines.append("steps %s %s" % (token, " ".join("%d,%d,%d,1,1,0" % (eff, u, off) for u in stamps)))
         exp.append((repr(obj), got[1]))
-    out = run_model(ctx, drv, lines)
-    for (what, got), o in zip(exp, out):
-        ctx.traces_validated += 1
-        if o != "ok " + ",".join(str(k) for k in got):
-            ctx.stat("disagreements")
-            ctx.broke("correspondence Rotation.timeRunSteps", "rotation %s: impl %r, model %r" % (what, got, o))
+    def judge(out):
+        for (what, got), o in zip(exp, out):
+            ctx.traces_validated += 1
+            if o != "ok " + ",".join(str(k) for k in got):
+                ctx.stat("disagreements")
+                ctx.broke("correspondence Rotation.timeRunSteps", "rotation %s: impl %r, model %r" % (what, got, o))
+    return lines, judge
+
+
+class fake_platform:
+    """run `loguru._ctime_functions.load_ctime_functions()` as if on a platform with the given features: the module's
+    global `os` is replaced by a stand-in that has (or lacks) `name == "nt"`, `stat_result.st_birthtime`,
+    `getxattr`/`setxattr`; `win32_setctime` is a stub.  -> (get_ctime, set_ctime) of that platform"""
+
+    def __init__(self, is_nt, has_birthtime, has_xattr, birth=None):
+        self.is_nt, self.has_birthtime, self.has_xattr, self.birth = is_nt, has_birthtime, has_xattr, birth or {}
+
+    def __enter__(self):
+        import sys
+        import loguru._ctime_functions as cf
+        self.cf, self.old_os = cf, cf.os
+        birth = self.birth
+
+        class StatResultWithBirth:
+            st_birthtime = 0.0
+
+        def stat(path, *a, **k):
+            r = os.stat(path, *a, **k)
+            if not self.has_birthtime:
+                return r
+            return types.SimpleNamespace(st_mtime=r.st_mtime, st_ctime=r.st_ctime, st_atime=r.st_atime,
+                                         st_birthtime=birth.get(os.path.realpath(path), r.st_mtime))
+
+        fake = types.SimpleNamespace(name="nt" if self.is_nt else "posix", stat=stat, path=os.path,
+                                     stat_result=StatResultWithBirth if self.has_birthtime else os.stat_result)
+        if self.has_xattr:
+            fake.getxattr, fake.setxattr = os.getxattr, os.setxattr
+        self.old_win = sys.modules.get("win32_setctime")
+        sys.modules["win32_setctime"] = types.SimpleNamespace(SUPPORTED=False, setctime=lambda p, t: None)
+        cf.os = fake
+        try:
+            return cf.load_ctime_functions()
+        except BaseException:
+            self.__exit__()
+            raise
+
+    def __exit__(self, *a):
+        import sys
+        self.cf.os = self.old_os
+        if self.old_win is None:
+            sys.modules.pop("win32_setctime", None)
+        else:
+            sys.modules["win32_setctime"] = self.old_win
+        return False
+
+
+def run_platform_stream(ctx, drv, rng, boost):
+    """(a) which pair of creation-time functions `load_ctime_functions` installs for each of the eight feature
+    combinations (oracle: Windows, else birth time, else extended attributes, else st_mtime; model: `platformOf` over
+    the regenerated dispatch); (b) sink histories with restarts where the creation tag CANNOT be persisted (the
+    fallback pair): after a restart the boundaries are counted from the modification time of the file in use – the
+    documented fallback – judged by an oracle of its own and compared with `Sink.runOpsOn false`."""
+    if not (hasattr(os, "getxattr") and hasattr(os, "setxattr")):
+        ctx.note("platform stream skipped: this interpreter has no os.getxattr")
+        return
+    lines, exp = [], []
+    try:
+        with fake_platform(False, False, False) as probe:
+            pass
+    except Exception as e:  # noqa – the stand-in of `os` does not offer what load_ctime_functions now asks for
+        ctx.broke("platform emulation", "load_ctime_functions cannot be run under the stand-in of os: %s: %s"
+                  % (type(e).__name__, e))
+        return None
+    for is_nt in (False, True):
+        for hb in (False, True):
+            for hx in (False, True):
+                try:
+                    with fake_platform(is_nt, hb, hx) as (g, s_):
+                        got = g.__name__[len("get_ctime_"):] if g.__name__.startswith("get_ctime_") else g.__name__
+                        paired = s_.__name__ == "set_ctime_" + got
+                except Exception as e:  # noqa
+                    ctx.broke("platform emulation", "features %r: %s: %s" % ((is_nt, hb, hx), type(e).__name__, e))
+                    continue
+                want = "windows" if is_nt else "macos" if hb else "linux" if hx else "fallback"
+                ctx.case(("platform", is_nt, hb, hx), nontrivial=True)
+                ctx.stat("platform_dispatch")
+                # a POSIX platform offering BOTH a birth time and the xattr functions does not exist today: which of the
+                # two sources wins there is not judged (the model follows the regenerated order either way)
+                judged = is_nt or not (hb and hx)
+                if judged and (got != want or not paired):
+                    ctx.violation("load_ctime_functions on a platform with os.name%s'nt', %s st_birthtime, %s xattr functions "
+                                  "installs %s / %s; the creation time must come from %s"
+                                  % ("==" if is_nt else "!=", "with" if hb else "without", "with" if hx else "without",
+                                     g.__name__, s_.__name__, want),
+                                  {"stream": "platform", "features": [is_nt, hb, hx], "observed": got, "expected": want})
+                lines.append("plat %d %d %d" % (is_nt, hb, hx))
+                exp.append((got, "dispatch (%s, %s, %s)" % (is_nt, hb, hx)))
+    # (b) histories without a persisted creation time
+    import loguru._file_sink as fs
+    n = ctx.n(100, 2500) * boost
+    slines, sexp = [], []
+    for i in range(n):
+        if HANGS["n"] >= 8:
+            break
+        meaning = gen_meaning(rng)
+        sem = normal(meaning)
+        obj, token, how = render(rng, meaning)
+        off = rng.choice(OFFSETS)
+        eff = ctime_pair(gen_creation(rng) - off)[1]
+        stamps = gen_stamps(rng, sem, eff, off, rng.range(2, 7))
+        ops = list(stamps)
+        for _ in range(rng.choice([1, 1, 2])):
+            ops.insert(rng.range(0, len(ops)), None)
+        texts = ["<%d>%s\n" % (k, "x" * rng.below(5)) for k in range(len(stamps))]
+        got = impl_sink_untagged(obj, eff, ops, off, texts)
+        # oracle: like oracle_history, but a restarted sink counts from the last record written (the modification time)
+        g = frame_offset(sem, off)
+        creation, limit, anchor, bits = eff, None, None, []
+        for u in ops:
+            if u is None:
+                limit = None
+                continue
+            if limit is None:
+                anchor = naive_of(creation + g)
+                limit = next_boundary(sem, anchor, anchor)
+            key = naive_of(u + g)
+            if key >= limit:
+                bits.append(True)
+                limit = next_boundary(sem, key, anchor)
+            else:
+                bits.append(False)
+            creation = u                   # the modification time moves with every record
+        want = show_files(files_from_bits(bits))
+        ctx.case(("untagged", token, eff, off, tuple(ops)), nontrivial=(any(bits) and not all(bits)))
+        ctx.stat("sink_without_creation_tag")
+        rep = {"stream": "untagged", "token": token, "spelling": obj if isinstance(obj, str) else repr(obj), "ctime": eff,
+               "offset": off, "ops": ops, "expected": want}
+        if got[0] != "ok":
+            ctx.violation("file sink with rotation %r on a file system without creation tags: %s" % (rep["spelling"], got),
+                          dict(rep, observed=list(got)))
+            continue
+        if got[1] != want:
+            ctx.violation("file sink with rotation %r where the creation time cannot be persisted (fallback: st_mtime), "
+                          "creation %d, offset %d: messages per file %s, counted from the modification time they are %s"
+                          % (rep["spelling"], eff, off, got[1], want), dict(rep, observed=got[1]))
+        it = iter(texts)
+        msgs = " ".join("R" if u is None else (lambda t: "%d,%d,%d,%d" % (u, off, len(t.encode()), len(t)))(next(it))
+                        for u in ops)
+        slines.append("sinku %s %d %d %s" % (token, eff, len(b"old line\n"), msgs))
+        sexp.append((rep, got[1]))
+    def judge(out):
+        for (got, what), o in zip(exp, out):
+            ctx.traces_validated += 1
+            if o != got:
+                ctx.stat("disagreements")
+                ctx.broke("correspondence Rotation.platformOf", "%s: impl %r, model %r" % (what, got, o))
+        for (rep, obs), o in zip(sexp, out[len(lines):]):
+            ctx.traces_validated += 1
+            if parse_out(o) != ("ok", obs):
+                ctx.stat("disagreements")
+                ctx.broke("correspondence Rotation.sink (no creation tag)", "spec=%r impl=%r model=%r ops=%r"
+                          % (rep["spelling"], obs, o, rep["ops"]))
+    return lines + slines, judge
+
+
+def impl_sink_untagged(obj, ctime_us, ops, off, texts, limit_s=5):
+    """a real FileSink on an existing file, with the FALLBACK creation-time functions of loguru installed
+    (`get_ctime` = st_mtime, `set_ctime` a no-op) and a clock emulated on the file system: after every record the
+    modification time of the log file is set to the (frozen) instant of that record.  ops: UTC instants, None = restart.
+    -> ("ok", "i,j|k|…") | ("err", kind) | ("hang", i) | ("raised", kind, i) | ("undecomposable",)"""
+    import loguru._file_sink as fs
+    d = tempfile.mkdtemp(prefix="verif-rot-")
+    clock = FrozenClock()
+    old_dt = fs.datetime
+    pre = b"old line\n"
+    try:
+        path = os.path.join(d, "app.log")
+        with open(path, "wb") as fh:
+            fh.write(pre)
+        # (the access time is kept apart from the modification time: reads, backups, `noatime` mounts move it freely)
+        os.utime(path, ns=((ctime_us + 7654321) * 1000, ctime_us * 1000))
+        with fake_platform(False, False, False) as (g, s_):
+            pass
+        with patched_ctime(g, s_):
+            fs.datetime = clock.module
+            try:
+                try:
+                    sink = fs.FileSink(path, rotation=obj)
+                except Exception as e:  # noqa
+                    return ("err", canon_err(e))
+                i = 0
+                it = iter(texts)
+                try:
+                    with time_limit(limit_s):
+                        for i, u in enumerate(ops):
+                            if u is None:
+                                sink.stop()
+                                sink = fs.FileSink(path, rotation=obj)
+                                continue
+                            clock.now_us = u
+                            sink.write(make_message(next(it), u, off))
+                            os.utime(path, ns=((u - 3600 * 10**6) * 1000, u * 1000))
+                except Hang:
+                    HANGS["n"] += 1
+                    return ("hang", i)
+                except Exception as e:  # noqa
+                    return ("raised", canon_err(e), i)
+                finally:
+                    try:
+                        sink.stop()
+                    except Exception:  # noqa
+                        pass
+            finally:
+                fs.datetime = old_dt
+        files = []
+        for name in os.listdir(d):
+            with open(os.path.join(d, name), "rb") as fh:
+                files.append((name, fh.read()))
+        part = partition_of(files, texts, "utf8", pre)
+        if part is None:
+            return ("undecomposable",)
+        seen = [p[0] for p in part]
+        return ("ok", show_files([f for j, f in enumerate(seen) if f or j == 0] or [[]]))
+    finally:
+        shutil.rmtree(d, ignore_errors=True)
 
 
 def files_from_bits(bits):
@@ -1318,13 +1598,31 @@ def replay(ctx, rep):
             if r.get("after_set"):
                 cf.set_ctime(path, (r["aging"]["mtime_us"] + 1) / 1e6)
                 want = r["expected"]
-            got = us_of(pydt.datetime.fromtimestamp(cf.get_ctime(path), tz=pydt.timezone.utc))
+            getter = cf.get_ctime
+            if r.get("fallback"):
+                with fake_platform(False, False, False) as (getter, _):
+                    pass
+            got = us_of(pydt.datetime.fromtimestamp(getter(path), tz=pydt.timezone.utc))
             st = os.stat(path)
             print("file aged as %r: mtime=%s inode-change=%s" % (r["aging"], st.st_mtime, st.st_ctime))
             print("get_ctime -> %s, creation time of the file: %s" % (naive_of(got), naive_of(want)))
             bad = got != want
         finally:
             shutil.rmtree(d, ignore_errors=True)
+    elif stream == "untagged":
+        obj = object_of_token(r["token"])
+        n = sum(1 for u in r["ops"] if u is not None)
+        got = impl_sink_untagged(obj, r["ctime"], r["ops"], r["offset"], ["<%d>\n" % k for k in range(n)])
+        print("rotation=%r history (None = sink removed and added again)=%r, creation time not persistable" % (r.get("spelling"), r["ops"]))
+        print("implementation:", got)
+        print("expected:      ", r.get("expected"))
+        bad = got != ("ok", r.get("expected"))
+    elif stream == "platform":
+        is_nt, hb, hx = r["features"]
+        with fake_platform(is_nt, hb, hx) as (g, s_):
+            got = g.__name__[len("get_ctime_"):]
+        print("features (nt, st_birthtime, xattr) = %r: installed %s, expected %s" % (r["features"], got, r["expected"]))
+        bad = got != r["expected"]
     elif stream == "dur":
         from loguru import _string_parsers as sp
         try:
